@@ -23,7 +23,7 @@ export VERIF_SEED=${VERIF_SEED:-1}
 # one package per property (compile isolation); race detector for the concurrent drivers
 PKG=$(echo "$ID" | tr 'A-Z' 'a-z'); RACE=0; WQ=900; WT=7200
 case "$ID" in
-  C01|C02|C04|C05|C06|C09|C11|C24|C25|C26|C27|C33) RACE=1 ;;
+  C01|C02|C04|C05|C06|C09|C11|C19|C20|C24|C25|C26|C27|C33|C38|C39|C40) RACE=1 ;;
 esac
 if [ ! -d "$ROOT/harness/props/$PKG" ]; then echo "BROKEN property=$ID no driver package props/$PKG"; exit 2; fi
 [ "${VERIF_RACE:-}" = "0" ] && RACE=0
